@@ -520,7 +520,7 @@ def main():
     if hits:
         trouble.append("forbidden construct in development: " + "; ".join(hits[:5]))
     prop_rel = "props/Prop_%s.v" % pid
-    run_mod = "Run_%s" % pid
+    run_mod = getattr(H, "RUN_MOD", "Run_%s" % pid)
     theorems = prop_theorems(prop_rel)
     mk_timeout = 1500 if tier == "thorough" else 900
     checker_cmds = []
